@@ -109,6 +109,12 @@ pub fn run_case(rep: &mut Report, case: &Case, verbose: bool) {
     }
     let Ok(built) = b.build() else { return };
     let mut node = built.node;
+    // what the instance advertises does not depend on whether the host's clock accepts the time
+    // properties: in a third of the cases every clock control call fails
+    if case.seed % 3 == 0 {
+        node.clock.lock().unwrap().fail_every = Some(1);
+        rep.ev("case_with_failing_clock");
+    }
     let own_id = clock_id(0x50).0;
     let mut own_quality = (248u8, 0xfeu8, 0x8000u16 - 23 * 256);
     let own_view = |q: (u8, u8, u16)| View {
